@@ -144,7 +144,7 @@ class C06(Prop):
         "written_file", "open_written", "open_rejects", "findName_stored", "findName_alias", "findName_absent", "findNumber_sorted",
         "fileInfo_spec", "internal_eq_external", "auto_switch_trigger", "external_is_permanent", "history_write", "history_index_correct", "history_alias", "history_enumeration", "findSubseq_spec", "findSubseq_erange", "exCross_wf",
         "findSubseq_alias", "findSubseq_absent", "open_any_bytes", "bsearch_any_array", "findName_any_index", "findName_no_fault",
-        "findNumber_any_index", "fileInfo_any_index", "findSubseq_any_index", "written_index_no_alias_chain", "truncated_index_never_wrong", "truncated_index_same_answers", "write_twice", "findName_one_level", "findName_chain_depth", "findName_cycle_never_returns", "exLoop_next", "addFile_never_checks_names",
+        "findNumber_any_index", "fileInfo_any_index", "findSubseq_any_index", "written_index_no_alias_chain", "truncated_index_never_wrong", "truncated_index_same_answers", "write_twice", "findName_one_level", "findName_chain_depth", "findName_cycle_never_returns", "exLoop_next", "offsets_beyond_file", "addFile_never_checks_names",
         "cross_class_duplicate_rejected")]
     claimed = True
     technique = ("Lean 4 proof about an executable model of esl_ssi.c (writer, on-disk layout, binary search, alias indirection) "
@@ -486,8 +486,12 @@ class C06(Prop):
         if magic != 0xd3d3c9b3 or offsz != 8:
             return None
         nfiles, np_, ns_, flen, plen, slen, frec, prec, srec, foff, poff, soff = struct.unpack(">HQQIIIIIIQQQ", bytes(b[12:78]))
-        if np_ > 3000 or ns_ > 3000 or nfiles > 64 or max(foff, poff, soff) >= 2**40 or max(flen, plen, slen) > 4096:
+        def off_ok(o):      # small, or a negative off_t far from both wrap-around points (base + recsize*mid is unsigned 64-bit arithmetic:
+            return o < 2**40 or 2**63 <= o < 2**64 - 2**40      # no UB; just below 2^63 the signed sum in FindNumber would overflow)
+        if np_ > 3000 or ns_ > 3000 or nfiles > 64 or foff >= 2**40 or not off_ok(poff) or not off_ok(soff) or max(flen, plen, slen) > 4096:
             return None
+        if (poff >= 2**40 and plen == 0) or (soff >= 2**40 and slen == 0):
+            return None                           # a zero-width read at an unseekable offset: fseeko fails, the model's empty read does not
         def cs(o, n):
             x = bytes(b[o:o + n]); return x.split(b"\0")[0]
         # alias -> target edges of every readable secondary record; a CYCLE could make esl_ssi_FindName recurse without end
@@ -536,7 +540,7 @@ class C06(Prop):
                 break
             b = bytearray(img)
             kind = rng.choice(["trunc", "trunc", "swapP", "revP", "dupP", "rotP", "swapS", "revS", "dupS", "countP", "countS", "poff", "soff",
-                               "keybyte", "target", "widths", "fh", "geom", "zerofill", "garbage-tail", "unterm", "unterm", "zerowidth", "chain"])
+                               "keybyte", "target", "widths", "fh", "geom", "zerofill", "garbage-tail", "unterm", "unterm", "zerowidth", "chain", "poff", "soff"])
             if kind == "trunc":
                 cut = rng.choice([poff, poff + 1, poff + plen - 1, poff + plen, poff + plen + 1, poff + plen + 2, poff + plen + 10, poff + prec - 1, poff + prec,
                                   soff - 1, soff, soff + 1, soff + slen - 1, soff + slen, soff + slen + plen - 1, len(b) - 1, len(b) - plen,
@@ -566,9 +570,11 @@ class C06(Prop):
             elif kind == "countS":
                 put(b, ">Q", 22, rng.choice([0, max(0, ns_ - 1), ns_ + 1, ns_ + 3, ns_ + 40, 1]))
             elif kind == "poff":
-                put(b, ">Q", 62, max(0, poff + rng.choice([-prec, -1, 1, plen, prec, 2 * prec, len(b), 7])))
+                put(b, ">Q", 62, rng.choice([max(0, poff + rng.choice([-prec, -1, 1, plen, prec, 2 * prec, len(b), 7])),
+                                             2**63, 2**63 + poff, 2**63 + 2**40, 2**64 - 2**41, 2**40 - 1, len(b), len(b) - 1]))      # incl. negative off_t
             elif kind == "soff":
-                put(b, ">Q", 70, max(0, soff + rng.choice([-srec if srec else -1, -1, 1, slen, srec, len(b), -prec])))
+                put(b, ">Q", 70, rng.choice([max(0, soff + rng.choice([-srec if srec else -1, -1, 1, slen, srec, len(b), -prec])),
+                                             2**63, 2**63 + soff, 2**64 - 2**41, 2**40 - 1, len(b)]))
             elif kind == "keybyte" and np_:
                 j = rng.randrange(np_); k = sorted(pk)[j]
                 at = poff + prec * j + rng.randrange(len(k))
@@ -728,6 +734,13 @@ class C06(Prop):
             "write twice=1", "open", "find k=%s" % hx(b"k2"), "close",
             "new", "addfile name=%s fmt=1" % hx(b"f"), "addkey k=%s fh=0 r=1 d=2 L=3" % hx(b"k1"), "addkey k=%s fh=0 r=1 d=2 L=3" % hx(b"k1"),
             "write twice=1", "open"]})
+        # hand-made alias -> alias chains (outside AddAlias's precondition): the recursion of esl_ssi_FindName is as deep as the chain
+        # and answers with the direct lookup of the last link (theorem findName_chain_depth); depths 0..5, one chain ending nowhere
+        chain_pk = {b"k1": (0, 11, 22, 33), b"k2": (0, 44, 55, 66)}
+        chain_al = {b"a1": b"k1", b"a2": b"a1", b"a3": b"a2", b"a4": b"a3", b"a5": b"a4", b"b1": b"k9", b"b2": b"b1", b"z": b"k2"}
+        c.append({"name": "alias-chains", "sticky": 1, "ops": ["new", "openraw hex=%s" % hx(ssi_image([(b"f", 1)], {0: (61, 60)}, chain_pk, chain_al))] +
+                  ["find k=%s" % hx(k) for k in (b"k1", b"a1", b"a2", b"a3", b"a4", b"a5", b"b1", b"b2", b"z", b"k9", b"a6")] +
+                  ["subseq k=%s start=%d" % (hx(k), st) for k in (b"a5", b"b2") for st in (1, 33, 34)] + ["findq k=%s" % hx(b"a5"), "close"]})
         c.append({"name": "dup-alias-external", "sticky": 1, "ops": [
             "new", "addfile name=%s fmt=1" % hx(b"f"), "addkey k=%s fh=0 r=1 d=2 L=3" % hx(b"k1"), "external", "addkey k=%s fh=0 r=4 d=5 L=6" % hx(b"k2"),
             "addalias a=%s k=%s" % (hx(b"al"), hx(b"k1")), "addalias a=%s k=%s" % (hx(b"al"), hx(b"k2")), "write", "open"]})
